@@ -1,6 +1,8 @@
 package verifharness
 
 import (
+	"os"
+	"path/filepath"
 	"testing"
 
 	"pgregory.net/rapid"
@@ -139,5 +141,50 @@ func TestC19Sched(t *testing.T) {
 			rt.Fatalf("VIOLATION-CANDIDATE property=C19 sig=%q case=%s\n%s\ncase: %s", v.Sig, p, v.Error(), c.String())
 		}
 		st.Note(c.Hash(), ev, ev["keyonly_reads_checked"] > 0 && ev["sched_switches"] >= 2, func() string { return c.String() })
+	})
+}
+
+// TestC05Par: the same workers as real goroutines running side by side (no
+// scheduler) over a mutex-protected file.  This reaches what the cooperative
+// scheduler cannot: interleavings inside the regions between two yield points,
+// lock-order inversions, unsynchronised shared maps.  The oracle is the same
+// post-hoc version-interval validation (windows from an atomic clock), plus: no
+// panic, no fatal runtime error, no deadlock (watchdog).  A failure cannot be
+// replayed exactly; the saved case is re-run in a loop to re-find it.
+func TestC05Par(t *testing.T) {
+	st := NewStats("C05", "real-parallel phase: the workers of the scheduler engine (1 mutator incl. SetCollection/RemoveCollection of a third collection, 1 flusher, 1-3 readers whose visitor callbacks also call AllocStats/GetCollectionNames/Stats) run as real goroutines side by side, each op list repeated 8-40 times; same post-hoc oracle with windows taken from an atomic clock; no panic, no fatal runtime error (concurrent map access), no deadlock (watchdog). Failures are re-searched by re-running the saved case up to 400 times. Non-trivial = at least one reader window overlapped a mutation.",
+		append(append([]string{}, commonAssumptions...), "real-parallel failures are schedule dependent: a saved case is confirmed by re-running it, not by exact replay"))
+	defer func() {
+		if p := outPath(); p != "" {
+			st.Write(p)
+		}
+	}()
+	gen := genSchedCase()
+	rapid.Check(t, func(rt *rapid.T) {
+		c := gen.Draw(rt, "case")
+		c.Cfg.Profile = "C05-par"
+		c.Cfg.Sched = nil
+		c.Cfg.Extra = []int{8 + uni(rt, 33, "rep")}
+		// collection management by the mutating goroutine
+		nadm := uni(rt, 4, "nadmin")
+		for i := 0; i < nadm && len(c.Cfg.Workers) > 0; i++ {
+			k := OpSetColl
+			if uni(rt, 3, "admkind") == 0 {
+				k = OpRmColl
+			}
+			mut := c.Cfg.Workers[0]
+			pos := uni(rt, len(mut)+1, "admpos")
+			mut = append(mut[:pos:pos], append([]Op{{K: k, C: 2}}, mut[pos:]...)...)
+			c.Cfg.Workers[0] = mut
+		}
+		// journal the case first: a fatal runtime error kills the process
+		os.MkdirAll(failDir(), 0755)
+		SaveCase(filepath.Join(failDir(), "C05.journal.json"), c)
+		v, ev := guarded("C05", c, func() (*Violation, map[string]int) { return RunSched(c) })
+		if v != nil {
+			p := saveFailure("C05", c, v)
+			rt.Fatalf("VIOLATION-CANDIDATE property=C05 sig=%q case=%s\n%s\ncase: %s", v.Sig, p, v.Error(), c.String())
+		}
+		st.Note(c.Hash(), ev, ev["reads_overlapping_mutation"] >= 1, func() string { return c.String() })
 	})
 }
